@@ -124,7 +124,7 @@ class ExecCall(ExecExpr):
         env.update(dict(zip(names, args)))
         st.env = env
         for s, v in self.eval(lam.node.body, st):
-            s.env = saved
+            s.env = dict(saved)
             yield s, v
 
     def str_method(self, st, recv, name, args):
@@ -194,6 +194,12 @@ class ExecCall(ExecExpr):
                 yield st, x
             elif x.kind == "bool":
                 yield st, V("int", z3.If(x.t, 1, 0))
+            elif x.kind == "real" and x.t.decl().kind() == z3.Z3_OP_DIV and all(
+                    c.decl().kind() == z3.Z3_OP_TO_REAL for c in x.t.children()):
+                # int(a / b) with integer a, b: truncating integer division (A-real: the quotient is exact)
+                a_, b_ = [c.arg(0) for c in x.t.children()]
+                pos = lambda n, d: z3.If(n >= 0, n / d, -((-n) / d))       # d > 0; z3's `/` on Int is floor division
+                yield st, V("int", z3.If(b_ > 0, pos(a_, b_), pos(-a_, -b_)))
             elif x.kind == "real":
                 # truncation toward zero (A-real: exact rationals instead of IEEE doubles)
                 fl = z3.ToInt(x.t)
@@ -388,7 +394,7 @@ class ExecCall(ExecExpr):
                 s.env = dict(saved)
                 s.env[lam.args.args[0].arg] = val
                 for s2, v in self.eval(lam.body, s):
-                    s2.env = saved
+                    s2.env = dict(saved)
                     yield s2, v
             return
         is_forall = name.startswith("forall")
@@ -448,7 +454,7 @@ class ExecCall(ExecExpr):
                     self.bind_target(s, g.target, it.items[i])
                     conds = [self.truth(self.eval1(c, s)) for c in g.ifs]
                     v = self.truth(self.eval1(comp.elt, s))
-                    s.env = saved
+                    s.env = dict(saved)
                     term = z3.And(conds + [v]) if name == "any" else z3.Implies(z3.And(conds) if conds else z3.BoolVal(True), v)
                     yield from rec(i + 1, s, acc + [term])
                 yield from rec(0, s0, [])
